@@ -249,10 +249,16 @@ class Engine(Interp, InterpExpr, InterpComp, InterpStmt, InterpCall, InterpBuilt
         if self.mode == SPECULATE:
             raise SpeculationFailed()
         if self.mode == GENERIC:
-            # a modular call for a *generic* element would yield one fresh result for all elements and could not fork
-            # the callee's exceptional outcomes: refuse rather than be unsound
-            raise Unsupported(f'call of {con.target} (by contract) inside a summarised comprehension / generic element '
-                              f'evaluation at line {line}: give the enclosing loop an invariant or inline the callee')
+            # a modular call for a *generic* element must not yield one fresh result for all elements and cannot fork the
+            # callee's exceptional outcomes.  It is supported when the callee cannot raise, writes nothing, has no ghost
+            # effect and returns scalars: the result is then Skolemised over the bound variables (see below); anything
+            # else is refused rather than be unsound
+            rty0 = self.ts.ann_to_type(ast.parse(con.returns, mode='eval').body, fi.module) if con.returns else self.ts.return_type(fi)
+            if not (self.generic_scopes and not con.raises and not con.effect and con.modifies is not None
+                    and self._skolemisable(rty0)):
+                raise Unsupported(f'call of {con.target} (by contract) inside a summarised comprehension / generic element '
+                                  f'evaluation at line {line}: give the enclosing loop an invariant or inline the callee '
+                                  f'(supported only for callees with raises=(), modifies [] and scalar results)')
         self.by_contract.add(con.target)
         vars_ = self.bind_params(fi, args, kwargs, line)
         bindings = dict(vars_)
@@ -282,6 +288,8 @@ class Engine(Interp, InterpExpr, InterpComp, InterpStmt, InterpCall, InterpBuilt
             self.run.oblige(f'term:recursion/{tag}', 'term', z3.And(m_call >= 0, m_call < m_entry), line)
         heap_before = self.heap.snapshot()
         mods = self.eval_modifies(con, bindings)
+        if self.mode == GENERIC and mods:
+            raise Unsupported(f'call of {con.target} (by contract, non-empty modifies) inside a summarised comprehension at line {line}')
         if not con.pure:
             self.heap.havoc(self.allowed_fn(mods))
         logged = set()
@@ -324,6 +332,22 @@ class Engine(Interp, InterpExpr, InterpComp, InterpStmt, InterpCall, InterpBuilt
                     raise PyRaise(ev, line)
         if rty == ANY:
             raise Unsupported(f'contract {con.target}: return type unknown (add returns=)')
+        if self.generic_scopes and self.mode != EXEC and self._skolemisable(rty):
+            # call made while a comprehension is evaluated for a *generic* element: the result is a function of the bound
+            # variables (one value per element, not one for all) and the postconditions hold for every element that
+            # reaches the call; both facts outlive the evaluation scope of the generic element
+            qvars = [v for vs, _ in self.generic_scopes for v in vs]
+            # guards = what was assumed since the outermost generic element was introduced (iteration guard, filters,
+            # callee preconditions); the silent shape-validity facts of the values read on the way are typing axioms
+            # that hold for every element and are left out of the antecedent
+            facts = [t for t in self.run.pc[self.run.scopes[self.generic_scopes[0][1] - 1]:]
+                     if t.get_id() not in self.run.persistent]
+            result = self.skolem_value('ret_' + fi.name, rty, qvars, facts)
+            bindings['result'] = result
+            for cl in con.post:
+                t = self.as_bool(self.eval_clause(cl, con.module, bindings))
+                self.run.assume(z3.ForAll(qvars, z3.Implies(z3.And(facts) if facts else z3.BoolVal(True), t)), silent=True)
+            return result
         result = self.fresh_value('ret_' + fi.name, rty)
         bindings['result'] = result
         for c2 in [con] + others:
@@ -354,6 +378,30 @@ class Engine(Interp, InterpExpr, InterpComp, InterpStmt, InterpCall, InterpBuilt
             return None
         finally:
             self.callee_clause -= 1
+
+    EFFECT_VOCABULARY = {'no_effect', 'count_effects', 'effect_at', 'effects'}
+
+    def _mentions_effects(self, clause):
+        return any(isinstance(n, ast.Name) and n.id in self.EFFECT_VOCABULARY for n in ast.walk(clause))
+
+    def _skolemisable(self, ty):
+        if ty in (INT, BOOL, REAL, STR) or isinstance(ty, TEnum):
+            return True
+        return isinstance(ty, TTuple) and all(self._skolemisable(t) for t in ty.ts)
+
+    def skolem_value(self, hint, ty, qvars, facts):
+        """value of scalar/tuple type ty given by fresh uninterpreted functions of the bound variables qvars"""
+        if isinstance(ty, TTuple):
+            return tuple(self.skolem_value(f'{hint}.{i}', t, qvars, facts) for i, t in enumerate(ty.ts))
+        self.run.fresh_n += 1
+        f = z3.Function(f'{hint}!sk{self.run.fresh_n}', *([v.sort() for v in qvars] + [sort_of(ty)]))
+        t = f(*qvars)
+        g = z3.And(facts) if facts else z3.BoolVal(True)
+        if ty == STR:
+            self.run.assume(z3.ForAll(qvars, z3.Implies(g, t != STR_NONE)), silent=True)
+        if isinstance(ty, TEnum):
+            self.run.assume(z3.ForAll(qvars, z3.Implies(g, self.ts.enum_domain(t, ty.name))), silent=True)
+        return SV(t, ty)
 
     def call_ext_contract(self, con, args, kwargs, line):
         self.externals_used.add(con.target)
@@ -446,7 +494,10 @@ def load_contract_module(ct, reg, path, modname):
                 reg.GROUPS[modname] = node.value.value
         elif isinstance(node, ast.ImportFrom):
             for a in node.names:
-                mod.imports[a.asname or a.name] = ('from', node.module or '', a.name)
+                if a.name == '*' and (node.module or '').startswith('contracts.'):
+                    mod.star_imports.append(node.module)    # specification functions shared between contract files
+                else:
+                    mod.imports[a.asname or a.name] = ('from', node.module or '', a.name)
         elif isinstance(node, ast.Import):
             for a in node.names:
                 mod.imports[a.asname or a.name.split('.')[0]] = ('module', a.name if a.asname else a.name.split('.')[0])
